@@ -130,6 +130,9 @@ def check_raise_classes(ctx, eng, only=None):
         ctx.floor('raise_class_functions', 25)
 
 
+ONLY_CALLER_OF = {
+    'stream.H2Stream._track_content_length': ['stream.H2Stream.receive_data'],
+}
 # translations: (function, caught class, raised class, category)
 TRANSLATIONS = [
     ('frame_buffer.FrameBuffer.__next__', 'InvalidFrameError',
@@ -331,6 +334,16 @@ def run(ctx, eng):
             r = cm.explicit_raise(p)
             if r is not None and r.frame == f3.qual:
                 raised |= set(p.exc['names'])
+        # (the refusal may be made by the one caller of the helper: read
+        # through the call)
+        for cq in ONLY_CALLER_OF.get(q, ()):
+            fc = m.funcs.get(cq)
+            if fc is not None and cname not in raised:
+                for p in eng.I.run(fc):
+                    r = cm.explicit_raise(p)
+                    if r is not None and r.frame == fc.qual and \
+                            cname in p.exc['names']:
+                        raised |= set(p.exc['names'])
         ok = cname in raised and codes.get(cname) == cat
         wrong = [x for x in raised if m.exc_is_subclass(x, 'ProtocolError')
                  and codes.get(x) != cat and x != cname and
